@@ -15,9 +15,10 @@ from ..cfront import CNode, CUnit, expand_calls, strip, text
 from ..core import AnalysisError, Loc, Report, Source, norm
 from ..heapzone import analyse_heap
 from ..orderings import CELLS, cmp_holds, lex_expected
+from ..guards import path_conditions
 from ..normalize import canon, flat
 from ..resolve import Resolver
-from ..pyfront import Program, body_without_docstring, param_names, self_attr
+from ..pyfront import Program, body_without_docstring, const_value, param_names, self_attr
 from ..selftest import Edit, Patch
 from .c14 import time_comparison_table
 from ..orderings import NotInFragment
@@ -135,7 +136,7 @@ def check_c_comparisons(unit: CUnit, rep: Report) -> None:
                    f"{fname}: ({sides[0]}) < ({sides[1]}) @ quotient{cell[0]} remainder{cell[1]}",
                    f"{what}: the C condition yields {table[cell]} where strict lexicographic (quotient, remainder) order "
                    f"gives {want}")
-    rep.expect_min("R6.1-c-order", 27)
+    rep.expect_min("R6.1-c-order", 18)
 
 
 # ---------------------------------------------------------------------------------------------------------------------
@@ -265,7 +266,7 @@ def _reaches(stmts: List[ast.stmt], atom, want) -> Optional[bool]:
     return None
 
 
-def _removed_keys(fn: ast.AST, var: Optional[str] = None) -> set:
+def _removed_keys(fn: ast.AST, var: Optional[str] = None, consts=None) -> set:
     """constant keys removed from a dict copy: `del d[k]`, `d.pop(k)`, comprehension filters `key not in (..)` / `key != k`"""
     out = set()
     for n in ast.walk(fn):
@@ -280,6 +281,10 @@ def _removed_keys(fn: ast.AST, var: Optional[str] = None) -> set:
                     for cmp_ in ast.walk(c):
                         if isinstance(cmp_, ast.Compare) and len(cmp_.ops) == 1:
                             r = cmp_.comparators[0]
+                            if isinstance(cmp_.ops[0], ast.NotIn) and not isinstance(r, (ast.Tuple, ast.List, ast.Set)) and consts is not None:
+                                v_ = consts(r)   # a class-level / module-level constant tuple of keys
+                                if isinstance(v_, (tuple, list, set, frozenset)):
+                                    out |= {x for x in v_ if isinstance(x, str)}
                             if isinstance(cmp_.ops[0], ast.NotIn) and isinstance(r, (ast.Tuple, ast.List, ast.Set)):
                                 out |= {e.value for e in r.elts if isinstance(e, ast.Constant)}
                             if isinstance(cmp_.ops[0], ast.NotEq) and isinstance(r, ast.Constant):
@@ -304,19 +309,36 @@ def check_heap_scheduler(src: Source, rep: Report, unit: CUnit) -> None:
         raise AnalysisError("HeapScheduler: push_event / trash_event / get_succeeding_event not found")
     # counter table: the self attribute incremented in trash_event
     ctr = None
-    inc_ok = False
     hparam = param_names(trash)[0]
+    # every write of counter[handler] in trash_event is an increment by one of the old value (a missing entry counts as 0):
+    # `c[h] += 1`, `c[h] = c.get(h, 0) + 1`, `c[h] = c[h] + 1`, and `c[h] = 1` only where the entry is known to be missing
+    # (except KeyError / `h not in c`)
+    writes = []
     for n in ast.walk(trash):
-        if isinstance(n, ast.Assign) and isinstance(n.targets[0], ast.Subscript) and self_attr(n.targets[0].value):
-            ctr = self_attr(n.targets[0].value)
+        t = n.targets[0] if isinstance(n, ast.Assign) and len(n.targets) == 1 else n.target if isinstance(n, ast.AugAssign) else None
+        if isinstance(t, ast.Subscript) and self_attr(t.value):
+            writes.append((n, t))
+            ctr = self_attr(t.value)
+    handlers_ke = [h for tr in ast.walk(trash) if isinstance(tr, ast.Try) for h in tr.handlers if "KeyError" in norm(h.type or ast.Constant(value=""))]
+    kinds = []
+    for n, t in writes:
+        if norm(t.slice) != hparam or self_attr(t.value) != ctr:
+            kinds.append("other")
+        elif isinstance(n, ast.AugAssign):
+            kinds.append("inc" if isinstance(n.op, ast.Add) and isinstance(n.value, ast.Constant) and n.value.value == 1 else "other")
+        else:
             v = n.value
-            inc_ok = norm(n.targets[0].slice) == hparam and isinstance(v, ast.BinOp) and isinstance(v.op, ast.Add) \
-                and ((isinstance(v.right, ast.Constant) and v.right.value == 1 and ctr in norm(v.left) and hparam in norm(v.left))
-                     or (isinstance(v.left, ast.Constant) and v.left.value == 1 and ctr in norm(v.right) and hparam in norm(v.right)))
-        if isinstance(n, ast.AugAssign) and isinstance(n.target, ast.Subscript) and self_attr(n.target.value):
-            ctr = self_attr(n.target.value)
-            inc_ok = norm(n.target.slice) == hparam and isinstance(n.op, ast.Add) and isinstance(n.value, ast.Constant) \
-                and n.value.value == 1
+            one = lambda x: isinstance(x, ast.Constant) and x.value == 1 and not isinstance(x.value, bool)   # noqa: E731
+            if isinstance(v, ast.BinOp) and isinstance(v.op, ast.Add) and ((one(v.right) and ctr in norm(v.left) and hparam in norm(v.left))
+                                                                           or (one(v.left) and ctr in norm(v.right) and hparam in norm(v.right))):
+                kinds.append("inc")
+            elif one(v):
+                in_ke = any(any(x is n for x in ast.walk(st)) for h in handlers_ke for st in h.body)
+                conds = path_conditions(body_without_docstring(trash), n) or []
+                kinds.append("first" if in_ke or f"{hparam} not in self.{ctr}" in conds else "other")
+            else:
+                kinds.append("other")
+    inc_ok = "inc" in kinds and "other" not in kinds
     loc = Loc(HEAP_PY, trash.lineno, f"{cls.name}.trash_event")
     rep.ob("R6.3-trash-increments-counter", bool(ctr) and inc_ok, loc, "trash_event: counter[handler] += 1",
            "trashing must increase the minimal valid counter of exactly the trashed handler by one")
@@ -328,13 +350,25 @@ def check_heap_scheduler(src: Source, rep: Report, unit: CUnit) -> None:
     rep.ob("R6.3-push-inserts", len(inserts) >= 1, Loc(HEAP_PY, push.lineno, f"{cls.name}.push_event"), "push_event calls insert",
            "push_event does not insert into the C heap")
     handlers_try = [n for n in ast.walk(push) if isinstance(n, ast.Try)]
+    RPH = Resolver(push)
+
+    def is_handle_of(e: ast.AST, h: str) -> bool:
+        """the cffi handle kept for handler h: <table>[h], or a local whose every definition is <table>[h] or new_handle(h)"""
+        if isinstance(e, ast.Subscript) and self_attr(e.value) and norm(e.slice) == h:
+            return True
+        if isinstance(e, ast.Name):
+            defs = [v for _, v in RPH.all_defs.get(e.id, [])]
+            return bool(defs) and all((isinstance(v, ast.Subscript) and self_attr(v.value) and norm(v.slice) == h) or
+                                      (isinstance(v, ast.Call) and aliases.get(norm(v.func), norm(v.func)).endswith("new_handle")
+                                       and len(v.args) == 1 and norm(v.args[0]) == h) for v in defs)
+        return False
     for call in inserts:
         in_except = any(any(x is call for h in t.handlers for x in ast.walk(h)) for t in handlers_try)
         loc = Loc(HEAP_PY, call.lineno, f"{cls.name}.push_event")
         a = call.args
         ok_time = len(a) >= 5 and norm(a[1]) == f"{tparam}.quotient" and norm(a[2]) == f"{tparam}.remainder"
         rep.ob("R6.3-insert-time", ok_time, loc, call, "the pushed time must be passed as (quotient, remainder) of the event time")
-        ok_handle = len(a) >= 5 and isinstance(a[3], ast.Subscript) and norm(a[3].slice) == hparam
+        ok_handle = len(a) >= 5 and is_handle_of(a[3], hparam)
         rep.ob("R6.3-insert-handle", ok_handle, loc, call, "the heap entry must carry the handle of the pushed event handler")
         if len(a) >= 5:
             c5 = a[4]
@@ -443,7 +477,7 @@ def check_heap_scheduler(src: Source, rep: Report, unit: CUnit) -> None:
             for st in h.body:
                 if _lib_calls(st, aliases, "delete_events"):
                     d = _lib_calls(st, aliases, "delete_events")[0]
-                    good = len(d.args) == 2 and isinstance(d.args[1], ast.Subscript) and norm(d.args[1].slice) == hparam
+                    good = len(d.args) == 2 and is_handle_of(d.args[1], hparam)
                     seq.append("delete" if good else "delete-wrong-handler")
                 elif isinstance(st, ast.Assign) and isinstance(st.targets[0], ast.Subscript) \
                         and self_attr(st.targets[0].value) == ctr and isinstance(st.value, ast.Constant) and st.value.value == 0 \
@@ -562,7 +596,7 @@ def check_heap_scheduler(src: Source, rep: Report, unit: CUnit) -> None:
         rep.ob("R6.6-restore-stored-counters", ok2, Loc(HEAP_PY, ss.lineno, f"{cls.name}.__setstate__"),
                "re-insert (quotient, remainder, handler, counter)",
                "entries must be re-inserted with their stored times, handlers and *stored* counters")
-        deleted = _removed_keys(gs)
+        deleted = _removed_keys(gs, consts=lambda e: const_value(prog, ci, e))
         keep = {ctr, "_last_returned_event"}
         rep.ob("R6.6-keeps-counters", not (deleted & keep), Loc(HEAP_PY, gs.lineno, f"{cls.name}.__getstate__"),
                f"pickled state keeps {sorted(keep)}", f"the pickled state drops {sorted(deleted & keep)}")
